@@ -147,7 +147,8 @@ class Ctx:
             if st.get(name):
                 self.obligation_failures.append({'what': f'Gen item {name} could not be regenerated from /repo',
                                                  'detail': st[name]})
-        targets = [prop_file[:-2] + '.vo'] + [g[:-2] + '.vo' for g in glue] + list(extra_targets)
+        # the non-vacuity examples (concrete objects meeting the hypotheses of the property theorems) are rebuilt with every property
+        targets = [prop_file[:-2] + '.vo', 'Proofs/NonVacuity.vo'] + [g[:-2] + '.vo' for g in glue] + list(extra_targets)
         ok, out = self.build(targets)
         src = open(os.path.join(COQ, prop_file)).read()
         thms = re.findall(r'^\s*(?:Theorem|Lemma|Corollary|Example|Fact)\s+(\w+)', src, re.M)
